@@ -5,6 +5,8 @@ crash/fault point safe: only the temp name is ever opened for writing, backup pr
 the rename is conditional on a clean close, and nobody else renames/unlinks.
 Not decided: kernel-level atomicity of rename(2).
 """
+import re
+
 from ..facts import expr_str, walk, callee_names, enum_consts, root_decl
 from ..flow import ReachingDefs, var_id
 from .common_io import *
@@ -76,6 +78,61 @@ def rule_tmp_only(ctx):
                     okp = (w is not None and fmt and fmt["k"] == "str" and fmt["v"] == "%s%s" and suffix is not None
                            and suffix["k"] == "str" and len(suffix["v"]) > 0 and expr_str(g, last["a"][3]) == "filename")
             r.check(okp, "%s/write-open-suffixed" % qn, db.loc(g, o), "write-mode open in %s is not of `filename + <non-empty literal suffix>`" % qn)
+    r.floor(5)
+
+
+def rule_inplace_name(ctx):
+    """do_source_file recognises the in-place case only by strcmp(filename_in, filename_out) == 0.  For --replace /
+    --no-backup the output name is built by make_output_filename(…, name, prefix=nullptr, suffix=nullptr); if that does
+    not reproduce `name` byte for byte, the source is opened for writing directly (no temp file, no backup)."""
+    db = ctx.db
+    r = ctx.rule("inplace-name", "the output name handed to do_source_file for the same input name is make_output_filename(buf, size, "
+                 "name, prefix, suffix) whose result is prefix/ + name + suffix with `name` unmodified: the parameter is never stored "
+                 "to, it is the first %s of the last snprintf, and the write offset is non-zero only under prefix != nullptr")
+    g = db.fn("make_output_filename", file=UNC)
+    pname = "filename"
+    stores = [n for n in g.all_nodes() if (n["k"] == "asg" or (n["k"] == "un" and n.get("op") in ("++", "--"))) and expr_str(g, n["a"][0]) in (pname, "*" + pname)]
+    r.check(not stores, "make_output_filename/name-not-modified", db.loc(g, stores[0] if stores else g.l0),
+            "make_output_filename changes its `filename` parameter (%s): for --replace the output name then differs textually from the "
+            "input name and do_source_file writes over the source without temp file or backup" % [expr_str(g, n["i"]) for n in stores])
+    sn = [n for n in g.all_nodes() if n["k"] == "call" and n.get("c") == "snprintf"]
+    r.require(sn, "make_output_filename no longer uses snprintf")
+    rets = [n for n in g.all_nodes() if n["k"] == "ret"]
+    last = [n for n in sn if rets and all(g.dominates(n["i"], x["i"]) for x in rets) and not any(m is not n and g.dominates(n["i"], m["i"]) for m in sn)]
+    r.require(len(last) == 1, "make_output_filename: no single final snprintf")
+    last = last[0]
+    fmt = g.nodes.get(last["a"][2]) if len(last.get("a", ())) > 3 else None
+    arg = g.nodes.get(last["a"][3]) if len(last.get("a", ())) > 3 else None
+    r.check(fmt is not None and fmt["k"] == "str" and fmt["v"].startswith("%s") and arg is not None and arg["k"] == "ref" and arg.get("d") == "pv"
+            and arg["n"] == pname, "make_output_filename/name-verbatim", db.loc(g, last),
+            "the final snprintf does not copy the `filename` parameter itself through a leading %%s: `%s`" % expr_str(g, last["i"])[:100])
+    # the offset variable of the final snprintf is assigned only 0 or under prefix != nullptr
+    dest = expr_str(g, last["a"][0])
+    m = re.match(r"&buf\[(\w+)\]$", dest)
+    r.check(bool(m) or dest == "buf", "make_output_filename/offset-shape", db.loc(g, last), "unexpected destination `%s`" % dest)
+    if m:
+        off = m.group(1)
+        for n in g.all_nodes():
+            if n["k"] == "asg" and expr_str(g, n["a"][0]) == off:
+                cs = [(expr_str(g, cn), pol) for cn, pol in g.guard_conds(g.nblock[n["i"]]) if cn is not None]
+                r.check(("prefix != nullptr", True) in cs, "make_output_filename/offset-only-with-prefix", db.loc(g, n),
+                        "`%s` is set outside `prefix != nullptr`" % expr_str(g, n["i"]))
+            if n["k"] == "decl" and n.get("n") == off:
+                init = g.nodes.get(n["a"][0]) if n.get("a") else None
+                r.check(init is not None and init["k"] == "int" and init["v"] == 0, "make_output_filename/offset-starts-at-0", db.loc(g, n), "`%s` does not start at 0" % off)
+    # callers: the name formatted is the name opened
+    n_calls = 0
+    for f2, c in db.callers_of("do_source_file"):
+        a = c.get("a", ())
+        if len(a) < 2:
+            continue
+        out = f2.nodes.get(a[1])
+        if out is not None and out["k"] == "call" and out.get("c") == "make_output_filename":
+            n_calls += 1
+            r.seen()
+            r.check(expr_str(f2, out["a"][2]) == expr_str(f2, a[0]), "%s/same-name" % f2.qn, db.loc(f2, c),
+                    "do_source_file(%s, make_output_filename(…, %s, …)): different names" % (expr_str(f2, a[0]), expr_str(f2, out["a"][2])))
+    r.require(n_calls >= 2, "only %d do_source_file(…, make_output_filename(…)) call sites" % n_calls)
     r.floor(5)
 
 
@@ -231,10 +288,37 @@ def rule_write_error_checked(ctx):
         hit = [(cn, pol) for (cn, pol) in conds if close_test(cn, pol)]
         r.check(bool(hit), "do_source_file/rename-after-clean-close", db.loc(f, rn),
                 "rename() is not controlled by the result of fclose(pfout): a short write (ENOSPC, EFBIG) would install a truncated file")
-        # the stream that is tested is pfout
-        for c in db.calls_in(f, "fclose"):
-            pass
-    r.floor(1)
+        # The writers (fputc/fwrite inside output_text and the --if-changed copy loop) never look at their results, so
+        # the sticky error indicator is the only record of a failed intermediate write(): the flag that controls the
+        # rename must also be fed by ferror(pfout) (fflush()/fclose() report only the final flush).
+        fed = False
+        for (cn, pol) in hit:
+            c = f.nodes.get(cn)
+            flagref = c if c["k"] == "ref" else (f.nodes.get(c["a"][0]) if c["k"] == "un" and c["op"] == "!" else None)
+            if flagref is None or flagref["k"] != "ref":
+                continue
+            for info in rd.at(cn, var_id(flagref)):
+                rhs = rd.rhs_of(info)
+                if rhs is not None and any(x["k"] == "call" and x.get("c") == "ferror" and x.get("a") and expr_str(f, x["a"][0]) == "pfout" for x in walk(f, rhs)):
+                    fed = True
+        if not fed:
+            # direct idiom: a dominating `ferror(pfout)` test
+            fed = any("ferror" in callee_names(f, cn) and "pfout" in expr_str(f, cn) for cn, pol in conds)
+        r.check(fed, "do_source_file/rename-after-ferror", db.loc(f, rn),
+                "rename() is not controlled by ferror(pfout): the writers ignore their results, so an intermediate write() that failed "
+                "(ENOSPC, EIO) is remembered only by the stream's error indicator; fflush()/fclose() succeed afterwards and a file "
+                "with a hole is installed")
+    # nothing is written to the stream after the error indicator was read
+    ferr = [n for n in f.all_nodes() if n["k"] == "call" and n.get("c") == "ferror" and n.get("a") and expr_str(f, n["a"][0]) == "pfout"]
+    r.require(ferr, "do_source_file no longer calls ferror(pfout)")
+    late = [n for n in f.all_nodes() if n["k"] == "call" and n.get("c") not in ("fclose", "fflush", "fileno", "ferror", "fsync")
+            and any(expr_str(f, a) == "pfout" for a in n.get("a", ()))]
+    for fe in ferr:
+        for m in late:
+            w = f.paths_avoiding(fe["i"], lambda n, m=m: n["i"] == m["i"], lambda n: n["k"] == "call" and n.get("c") == "ferror" and n["i"] != fe["i"])
+            r.check(w is None, "do_source_file/no-write-after-ferror/%s" % (m.get("c") or "?"), db.loc(f, m),
+                    "%s(… pfout …) can run after ferror(pfout) was consulted: its failure would go unnoticed" % m.get("c"))
+    r.floor(2)
 
 
-RULES = [rule_tmp_only, rule_order, rule_rename_owner, rule_write_error_checked]
+RULES = [rule_tmp_only, rule_inplace_name, rule_order, rule_rename_owner, rule_write_error_checked]
